@@ -82,6 +82,7 @@ def load_code(self):
     tea_decipher(data, key)
     self.bufpos += padsize
     obj = xmarshal._FastUnmarshaller(struct.pack("<%dL" % intsize, *data))
+    obj.dispatch = self.dispatch
     code = obj.load_code()
     co_code = patch(code.co_code)
     if PYTHON3:
@@ -283,6 +284,8 @@ def loads(s):
     with our decoding version.
     """
     um = xmarshal._FastUnmarshaller(s)
+    # Patch this unmarshaller only; the class-level table is shared by every other load.
+    um.dispatch = dict(um.dispatch)
     um.dispatch[xmarshal.TYPE_CODE] = load_code
     return um.load()
 
